@@ -232,7 +232,7 @@ func ruleOneIdPerCall(c *Ctx, rule string) {
 	}
 	env := p.envelopeIn("client.RpcMultiplexer.CallUnaryMethod")
 	st := env.Fields["Id"].Stores
-	c.check(rule, "CallUnaryMethod:envelope-id", len(st) == 1 && p.sameValue(st[0].Val, id), "Id stored in the request envelope is the atomic-add result", p.ipos(env.Alloc))
+	c.check(rule, "CallUnaryMethod:envelope-id", len(st) == 1 && p.sameValue(st[0].Val, id), "Id stored in the request envelope is the atomic-add result", p.ipos(env.At()))
 	// the channel registered is the one waited on
 	mk := p.callsTo(f, "", false)
 	_ = mk
@@ -313,7 +313,7 @@ func ruleReplyEchoesId(c *Ctx, rule string) {
 		want := p.fieldOfParam(f, "pb.Rpc", "Id")
 		got := env.Fields["Id"].Origins
 		c.check(rule, fk+":Id", sameTermSet(got, want) && env.Fields["Id"].Must,
-			fmt.Sprintf("Id of the emitted envelope has origins %s; required: exactly the Id of the inbound envelope %s", got, want), p.ipos(env.Alloc))
+			fmt.Sprintf("Id of the emitted envelope has origins %s; required: exactly the Id of the inbound envelope %s", got, want), p.ipos(env.At()))
 	}
 }
 
@@ -598,9 +598,9 @@ func rulePayloadProvenance(c *Ctx, rule string) {
 	cm := p.MustFn("client.RpcMultiplexer.CallUnaryMethod")
 	env := p.envelopeIn("client.RpcMultiplexer.CallUnaryMethod")
 	bs := env.Fields["Body"].Stores
-	c.check(rule, "CallUnaryMethod:body-param", len(bs) == 1 && p.sameValue(bs[0].Val, paramNamed(cm, "body")) && env.Fields["Body"].Must, "the request envelope carries the body handed in by invoke, unmodified", p.ipos(env.Alloc))
+	c.check(rule, "CallUnaryMethod:body-param", len(bs) == 1 && p.sameValue(bs[0].Val, paramNamed(cm, "body")) && env.Fields["Body"].Must, "the request envelope carries the body handed in by invoke, unmodified", p.ipos(env.At()))
 	hs := env.Fields["Header"].Stores
-	c.check(rule, "CallUnaryMethod:header-param", len(hs) == 1 && p.sameValue(hs[0].Val, paramNamed(cm, "header")) && env.Fields["Header"].Must, "the request envelope carries the header handed in by invoke", p.ipos(env.Alloc))
+	c.check(rule, "CallUnaryMethod:header-param", len(hs) == 1 && p.sameValue(hs[0].Val, paramNamed(cm, "header")) && env.Fields["Header"].Must, "the request envelope carries the header handed in by invoke", p.ipos(env.At()))
 
 	// server decode: Unmarshal(NewBuffer(&body.Data), msg) with body = inbound rpc.Body, msg = the closure's parameter
 	pu := p.MustFn("goat.handler.processUnaryRpc")
@@ -671,7 +671,7 @@ func rulePayloadProvenance(c *Ctx, rule string) {
 	if badRep != "" {
 		okRep, whyRep = false, badRep
 	}
-	c.check(rule, "processUnaryRpc:reply-body", okRep && nRep > 0, whyRep, p.ipos(renv.Alloc))
+	c.check(rule, "processUnaryRpc:reply-body", okRep && nRep > 0, whyRep, p.ipos(renv.At()))
 	// the codec's buffers are not released while the reply may still reference them
 	for _, ci := range p.callsTo(pu, "BufferSlice).Free", true) {
 		c.check(rule, "processUnaryRpc:no-buffer-release", false, "the marshalled buffers are handed back to the shared pool inside processUnaryRpc, before the reply envelope has been written", p.ipos(ci.(ssa.Instruction)))
